@@ -78,6 +78,9 @@ type imgEntry struct {
 	Link string // symlink target (ext4, squashfs, iso+RR)
 	// Sparse: on a host tree, all-zero 4 KiB pages of Data are left as holes (mke2fs -d then stores holes too)
 	Sparse bool
+	// FarOff: on a host tree, the second half of Data is placed at this byte offset behind a hole (a file larger
+	// than 4 GiB that costs four pages); builders that do not go through a host tree store Data as it is
+	FarOff int64
 }
 
 // fsKinds are the image kinds the shared builder knows.
@@ -125,6 +128,21 @@ func writeHostTree(dir string, tree []imgEntry) error {
 			}
 		default:
 			_ = os.MkdirAll(filepath.Dir(hp), 0o755)
+			if e.FarOff > 0 {
+				f, err := os.Create(hp)
+				if err != nil {
+					return err
+				}
+				half := len(e.Data) / 2
+				if _, err := f.WriteAt(e.Data[:half], 0); err == nil {
+					_, err = f.WriteAt(e.Data[half:], e.FarOff)
+				}
+				f.Close()
+				if err != nil {
+					return err
+				}
+				continue
+			}
 			if e.Sparse {
 				f, err := os.Create(hp)
 				if err != nil {
